@@ -1,5 +1,5 @@
 (* C20: the tokio model (broadcast::channel(1) under zlink-tokio's adapters) refines the
-   latest-value cell abs_impl *)
+   latest-value cell absZ_impl *)
 From ZV Require Import Notified.Notified Notified.NotifiedBase.
 Open Scope Z_scope.
 
@@ -44,10 +44,10 @@ Proof.
 Qed.
 
 (* a receiver that is behind gets the latest value (after at most one Lagged notice) *)
-Lemma t_poll_behind n rx closed rem last tx k :
+Lemma t_poll_behind n rx closed rem last tx ep k :
   k < n ->
-  t_stream_poll 3 (TChan n rx closed (TSlot (n - 1) rem (Some last)) tx) k =
-  (t_release (TChan n rx closed (TSlot (n - 1) rem (Some last)) tx), n, OItem last CTrue).
+  t_stream_poll 3 (TChan n rx closed (TSlot (n - 1) rem (Some last)) tx ep) k =
+  (t_release (TChan n rx closed (TSlot (n - 1) rem (Some last)) tx ep), n, OItem last CTrue).
 Proof.
   intros L. destruct (Z.eq_dec k (n - 1)) as [->|N].
   - cbn [t_stream_poll]. unfold t_bstream_poll. rewrite recv_ref_hit by reflexivity.
@@ -58,18 +58,18 @@ Proof.
     cbn [tl_slot sl_val]. replace (n - 1 + 1) with n by lia. reflexivity.
 Qed.
 
-Lemma t_poll_uptodate n rx closed sl_rem sl_val tx :
-  t_stream_poll 3 (TChan n rx closed (TSlot (n - 1) sl_rem sl_val) tx) n =
-  (TChan n rx closed (TSlot (n - 1) sl_rem sl_val) tx, n, if closed then OEnd else OPending).
+Lemma t_poll_uptodate n rx closed sl_rem sl_val tx ep :
+  t_stream_poll 3 (TChan n rx closed (TSlot (n - 1) sl_rem sl_val) tx ep) n =
+  (TChan n rx closed (TSlot (n - 1) sl_rem sl_val) tx ep, n, if closed then OEnd else OPending).
 Proof.
   cbn [t_stream_poll]. unfold t_bstream_poll. rewrite recv_ref_empty by (cbn; lia).
   cbn [tl_closed]. destruct closed; reflexivity.
 Qed.
 
-Lemma t_drop_behind n rx closed rem val tx k :
+Lemma t_drop_behind n rx closed rem val tx ep k :
   k < n ->
-  t_drain 3 (TChan n rx closed (TSlot (n - 1) rem val) tx) k n =
-  (t_release (TChan n rx closed (TSlot (n - 1) rem val) tx), ODone).
+  t_drain 3 (TChan n rx closed (TSlot (n - 1) rem val) tx ep) k n =
+  (t_release (TChan n rx closed (TSlot (n - 1) rem val) tx ep), ODone).
 Proof.
   intros L. assert (Ln : (k <? n) = true) by (apply Z.ltb_lt; lia).
   assert (Lf : (n <? n) = false) by (apply Z.ltb_ge; lia).
@@ -88,23 +88,23 @@ Proof. intros L. apply Z.ltb_lt in L. now rewrite L. Qed.
 Lemma bit_ltb_false k n : n <= k -> bit (Z.ltb k n) = 0%nat.
 Proof. intros L. apply Z.ltb_ge in L. now rewrite L. Qed.
 
-Ltac prj := cbn [tl_pos tl_rx tl_closed tl_slot tl_tx sl_pos sl_rem sl_val a_n a_last a_rx a_tx
-  ch_poll ch_set ch_sub ch_droprx ch_clone ch_droptx ch_new chan rx tokio_impl abs_impl fst snd] in *.
+Ltac prj := cbn [tl_pos tl_rx tl_closed tl_slot tl_tx tl_epoch a_epoch sl_pos sl_rem sl_val a_n a_last a_rx a_tx
+  ch_poll ch_set ch_sub ch_droprx ch_clone ch_droptx ch_new chan rx tokioZ_impl absZ_impl fst snd] in *.
 
 Lemma Rt_shape h c l a m : Rt h c l a m -> map livef l = map livef m.
 Proof. intros (-> & _). reflexivity. Qed.
 
-Lemma Rt_init : Rt 1 (ch_new tokio_impl) [] (ch_new abs_impl) [].
+Lemma Rt_init : Rt 1 (ch_new tokioZ_impl) [] (ch_new absZ_impl) [].
 Proof.
   cbn. unfold Rt; cbn. repeat split; auto; try lia. intros s k H. destruct s; discriminate.
 Qed.
 
 Lemma Rt_set h c l a m v : Rt (S h) c l a m ->
-  Rt (S h) (fst (ch_set tokio_impl c v)) l (fst (ch_set abs_impl a v)) m /\
-  snd (ch_set tokio_impl c v) = snd (ch_set abs_impl a v).
+  Rt (S h) (fst (ch_set tokioZ_impl c v)) l (fst (ch_set absZ_impl a v)) m /\
+  snd (ch_set tokioZ_impl c v) = snd (ch_set absZ_impl a v).
 Proof.
   intros (-> & [Ho Htx] & Hp & Hrx & Hl & Hc & Hsp & Hr & Hv & Hb).
-  destruct c as [n rx closed [sp rem val] tx], a as [an last arx atx]; prj. subst.
+  destruct c as [n rx closed [sp rem val] tx ep], a as [an last arx atx aep]; prj. subst.
   unfold t_send, a_set; cbn [tl_rx a_rx]. split; [|reflexivity].
   destruct (Nat.eqb (nlive m) 0) eqn:E; cbn [fst].
   - unfold Rt; cbn. rewrite E. repeat split; auto.
@@ -115,11 +115,11 @@ Proof.
 Qed.
 
 Lemma Rt_sub h c l a m : Rt (S h) c l a m ->
-  Rt (S h) (fst (ch_sub tokio_impl c)) (l ++ [Some (snd (ch_sub tokio_impl c))])
-          (fst (ch_sub abs_impl a)) (m ++ [Some (snd (ch_sub abs_impl a))]).
+  Rt (S h) (fst (ch_sub tokioZ_impl c)) (l ++ [Some (snd (ch_sub tokioZ_impl c))])
+          (fst (ch_sub absZ_impl a)) (m ++ [Some (snd (ch_sub absZ_impl a))]).
 Proof.
   intros (-> & [Ho Htx] & Hp & Hrx & Hl & Hc & Hsp & Hr & Hv & Hb).
-  destruct c as [n rx closed [sp rem val] tx], a as [an last arx atx]; prj. subst.
+  destruct c as [n rx closed [sp rem val] tx ep], a as [an last arx atx aep]; prj. subst.
   unfold Rt; cbn. rewrite nlive_app, nbehind_app, bit_ltb_false by lia.
   repeat split; auto; try lia.
   - destruct (nlive m); reflexivity.
@@ -129,13 +129,13 @@ Qed.
 
 Lemma Rt_poll h c l a m s r q : Rt h c l a m ->
   nth_error l s = Some (Some r) -> nth_error m s = Some (Some q) ->
-  Rt h (fst (fst (ch_poll tokio_impl c r))) (upd l s (Some (snd (fst (ch_poll tokio_impl c r)))))
-       (fst (fst (ch_poll abs_impl a q))) (upd m s (Some (snd (fst (ch_poll abs_impl a q))))) /\
-  snd (ch_poll tokio_impl c r) = snd (ch_poll abs_impl a q).
+  Rt h (fst (fst (ch_poll tokioZ_impl c r))) (upd l s (Some (snd (fst (ch_poll tokioZ_impl c r)))))
+       (fst (fst (ch_poll absZ_impl a q))) (upd m s (Some (snd (fst (ch_poll absZ_impl a q))))) /\
+  snd (ch_poll tokioZ_impl c r) = snd (ch_poll absZ_impl a q).
 Proof.
   intros (-> & [Ho Htx] & Hp & Hrx & Hl & Hc & Hsp & Hr & Hv & Hb) El Em.
   rewrite El in Em. injection Em as <-.
-  destruct c as [n rx closed [sp rem val] tx], a as [an last arx atx]; prj. subst.
+  destruct c as [n rx closed [sp rem val] tx ep], a as [an last arx atx aep]; prj. subst.
   pose proof (Hb _ _ El) as Lr. pose proof (nlive_pos _ _ _ El) as Lp.
   unfold a_poll, a_open; cbn [a_n a_last a_tx].
   destruct (Z.ltb_spec r an) as [L|L].
@@ -158,12 +158,12 @@ Qed.
 
 Lemma Rt_drop h c l a m s r q : Rt h c l a m ->
   nth_error l s = Some (Some r) -> nth_error m s = Some (Some q) ->
-  Rt h (fst (ch_droprx tokio_impl c r)) (upd l s None) (fst (ch_droprx abs_impl a q)) (upd m s None) /\
-  snd (ch_droprx tokio_impl c r) = snd (ch_droprx abs_impl a q).
+  Rt h (fst (ch_droprx tokioZ_impl c r)) (upd l s None) (fst (ch_droprx absZ_impl a q)) (upd m s None) /\
+  snd (ch_droprx tokioZ_impl c r) = snd (ch_droprx absZ_impl a q).
 Proof.
   intros (-> & [Ho Htx] & Hp & Hrx & Hl & Hc & Hsp & Hr & Hv & Hb) El Em.
   rewrite El in Em. injection Em as <-.
-  destruct c as [n rx closed [sp rem val] tx], a as [an last arx atx]; prj. subst.
+  destruct c as [n rx closed [sp rem val] tx ep], a as [an last arx atx aep]; prj. subst.
   pose proof (Hb _ _ El) as Lr. pose proof (nlive_pos _ _ _ El) as Lp.
   pose proof (nlive_upd_none _ _ _ El) as Ln.
   assert (Hcl : (if Nat.eqb (nlive m - 1) 0 then true else Nat.eqb h 0 || Nat.eqb (nlive m) 0) =
@@ -189,7 +189,7 @@ Proof.
 Qed.
 
 Lemma Rt_clone h c l a m : Rt (S h) c l a m ->
-  Rt (S (S h)) (ch_clone tokio_impl c) l (ch_clone abs_impl a) m.
+  Rt (S (S h)) (ch_clone tokioZ_impl c) l (ch_clone absZ_impl a) m.
 Proof.
   intros (-> & [Ho Htx] & Hp & Hrx & Hl & Hc & Hsp & Hr & Hv & Hb).
   unfold Rt; cbn. rewrite Ho, Htx. repeat split; auto.
@@ -197,7 +197,7 @@ Qed.
 
 (* dropping a handle closes the channel only when it was the last one *)
 Lemma Rt_droptx h c l a m : Rt (S h) c l a m ->
-  Rt h (ch_droptx tokio_impl c) l (ch_droptx abs_impl a) m.
+  Rt h (ch_droptx tokioZ_impl c) l (ch_droptx absZ_impl a) m.
 Proof.
   intros (-> & [Ho Htx] & Hp & Hrx & Hl & Hc & Hsp & Hr & Hv & Hb).
   unfold Rt; cbn. rewrite Ho, Htx, Hc. cbn [Nat.sub Nat.eqb orb]. rewrite Nat.sub_0_r.
@@ -213,28 +213,28 @@ Definition Rot (nf : bool) (t : tonce) (a : aonce) : Prop :=
   | AFinished => nf = false /\ t = TOnce None true true
   end.
 
-Lemma Rot_init : Rot true (on_new tokio_impl) (on_new abs_impl).
+Lemma Rot_init : Rot true (on_new tokioZ_impl) (on_new absZ_impl).
 Proof. cbn. auto. Qed.
 
 Lemma Rot_notify t a v : Rot true t a ->
-  Rot false (fst (on_notify tokio_impl t v)) (fst (on_notify abs_impl a v)) /\
-  snd (on_notify tokio_impl t v) = snd (on_notify abs_impl a v).
+  Rot false (fst (on_notify tokioZ_impl t v)) (fst (on_notify absZ_impl a v)) /\
+  snd (on_notify tokioZ_impl t v) = snd (on_notify absZ_impl a v).
 Proof. destruct a; cbn; intros [E H]; try discriminate. subst. cbn. auto. Qed.
 
-Lemma Rot_drop t a : Rot true t a -> Rot false (on_drop tokio_impl t) (on_drop abs_impl a).
+Lemma Rot_drop t a : Rot true t a -> Rot false (on_drop tokioZ_impl t) (on_drop absZ_impl a).
 Proof. destruct a; cbn; intros [E H]; try discriminate. subst. cbn. auto. Qed.
 
 Lemma Rot_poll nf t a : Rot nf t a ->
-  Rot nf (fst (on_poll tokio_impl t)) (fst (on_poll abs_impl a)) /\
-  snd (on_poll tokio_impl t) = snd (on_poll abs_impl a).
+  Rot nf (fst (on_poll tokioZ_impl t)) (fst (on_poll absZ_impl a)) /\
+  snd (on_poll tokioZ_impl t) = snd (on_poll absZ_impl a).
 Proof.
   destruct a; cbn; intros [E H]; subst; cbn; auto.
   destruct H as [->| ->]; cbn; auto.
 Qed.
 
-Theorem tokio_refines_abs ops : run tokio_impl ops = run abs_impl ops.
+Theorem tokioZ_refines_absZ ops : run tokioZ_impl ops = run absZ_impl ops.
 Proof.
-  apply (sim_run tokio_impl abs_impl Rt Rot).
+  apply (sim_run tokioZ_impl absZ_impl Rt Rot).
   - exact Rt_shape.
   - exact Rt_init.
   - intros; now apply Rt_set.
@@ -248,3 +248,166 @@ Proof.
   - intros; now apply Rot_drop.
   - intros; now apply Rot_poll.
 Qed.
+
+(* ---------------------------------------------------------------- with the waker *)
+(* positions of a list of receivers *)
+Definition pos (l : list (option brx)) : list (option Z) := map (option_map r_pos) l.
+
+Lemma pos_app l r : pos (l ++ [Some r]) = pos l ++ [Some (r_pos r)].
+Proof. unfold pos. now rewrite map_app. Qed.
+Lemma pos_upd l s x : pos (upd l s x) = upd (pos l) s (option_map r_pos x).
+Proof. unfold pos. apply map_upd. Qed.
+Lemma pos_nth l s r : nth_error l s = Some (Some r) -> nth_error (pos l) s = Some (Some (r_pos r)).
+Proof. intros H. unfold pos. erewrite map_nth_error; eauto. reflexivity. Qed.
+
+Lemma upd_inj_same A (l m : list A) s x y z :
+  nth_error l s = Some z -> upd l s x = upd m s y -> x = y.
+Proof.
+  intros H E. pose proof (nth_error_upd_same _ l s x z H) as A1. rewrite E in A1.
+  assert (Lm : (s < length m)%nat).
+  { assert (length (upd l s x) = length (upd m s y)) by now rewrite E.
+    rewrite !length_upd in H0. rewrite <- H0. apply nth_error_Some. congruence. }
+  destruct (nth_error m s) as [w|] eqn:Em; [|apply nth_error_None in Em; lia].
+  rewrite (nth_error_upd_same _ m s y w Em) in A1. congruence.
+Qed.
+
+(* nothing but send and close_channel notifies *)
+Lemma release_epoch c : tl_epoch (t_release c) = tl_epoch c.
+Proof. reflexivity. Qed.
+Lemma recv_ref_epoch c k : tl_epoch (fst (fst (t_recv_ref c k))) = tl_epoch c.
+Proof.
+  unfold t_recv_ref. destruct (negb (sl_pos (tl_slot c) =? k)); [|reflexivity].
+  destruct (sl_pos (tl_slot c) + 1 =? k); [reflexivity|].
+  destruct (tl_pos c - 1 - k =? 0); reflexivity.
+Qed.
+Lemma stream_poll_epoch fuel : forall c k, tl_epoch (fst (fst (t_stream_poll fuel c k))) = tl_epoch c.
+Proof.
+  induction fuel as [|f IH]; intros c k; [reflexivity|]. cbn [t_stream_poll]. unfold t_bstream_poll.
+  pose proof (recv_ref_epoch c k) as E. destruct (t_recv_ref c k) as [[c1 k1] r]. cbn [fst] in E.
+  destruct r as [[v|]| |n|]; cbn [fst]; auto. rewrite IH. exact E.
+Qed.
+Lemma drain_epoch fuel : forall c k u, tl_epoch (fst (t_drain fuel c k u)) = tl_epoch c.
+Proof.
+  induction fuel as [|f IH]; intros c k u; cbn [t_drain]; destruct (k <? u); try reflexivity.
+  pose proof (recv_ref_epoch c k) as E. destruct (t_recv_ref c k) as [[c1 k1] r]. cbn [fst] in E.
+  destruct r; cbn [fst]; auto; rewrite IH; exact E.
+Qed.
+Lemma droprx_epoch c k : tl_epoch (fst (t_droprx c k)) = tl_epoch c.
+Proof. unfold t_droprx. now rewrite drain_epoch. Qed.
+
+Definition Rtw (h : nat) (c : tchan) (l : list (option brx)) (a : achan) (m : list (option brx)) : Prop :=
+  l = m /\ tl_epoch c = a_epoch a /\ Rt h c (pos l) a (pos m).
+
+Lemma Rtw_shape h c l a m : Rtw h c l a m -> map livef l = map livef m.
+Proof. intros (-> & _). reflexivity. Qed.
+
+Lemma Rtw_init : Rtw 1 (ch_new tokio_impl) [] (ch_new abs_impl) [].
+Proof. split; [reflexivity|]. split; [reflexivity|]. exact Rt_init. Qed.
+
+Lemma Rtw_set h c l a m v : Rtw (S h) c l a m ->
+  Rtw (S h) (fst (ch_set tokio_impl c v)) l (fst (ch_set abs_impl a v)) m /\
+  snd (ch_set tokio_impl c v) = snd (ch_set abs_impl a v).
+Proof.
+  intros (-> & Ee & HR). destruct (Rt_set h c (pos m) a (pos m) v HR) as [HR' Eo].
+  split; [|exact Eo]. split; [reflexivity|]. split; [|exact HR'].
+  destruct HR as (_ & _ & _ & Hrx & _). cbn. unfold t_send, a_set. rewrite Hrx.
+  destruct (Nat.eqb (a_rx a) 0); cbn; congruence.
+Qed.
+
+Lemma Rtw_sub h c l a m : Rtw (S h) c l a m ->
+  Rtw (S h) (fst (ch_sub tokio_impl c)) (l ++ [Some (snd (ch_sub tokio_impl c))])
+            (fst (ch_sub abs_impl a)) (m ++ [Some (snd (ch_sub abs_impl a))]).
+Proof.
+  intros (-> & Ee & HR). pose proof (Rt_sub h c (pos m) a (pos m) HR) as HR'.
+  cbn in HR'. cbn [ch_sub tokio_impl abs_impl t_sub a_subw t_subscribe a_sub fst snd].
+  assert (Ep : tl_pos c = a_n a) by (destruct HR as (_ & _ & Hp & _); exact Hp).
+  split; [now rewrite Ep|]. split; [exact Ee|]. rewrite !pos_app. cbn [r_pos]. exact HR'.
+Qed.
+
+Lemma Rtw_poll h c l a m s r q : Rtw h c l a m ->
+  nth_error l s = Some (Some r) -> nth_error m s = Some (Some q) ->
+  Rtw h (fst (fst (ch_poll tokio_impl c r))) (upd l s (Some (snd (fst (ch_poll tokio_impl c r)))))
+        (fst (fst (ch_poll abs_impl a q))) (upd m s (Some (snd (fst (ch_poll abs_impl a q))))) /\
+  snd (ch_poll tokio_impl c r) = snd (ch_poll abs_impl a q).
+Proof.
+  intros (-> & Ee & HR) El Em. rewrite El in Em. injection Em as <-.
+  destruct (Rt_poll h c (pos m) a (pos m) s (r_pos r) (r_pos r) HR (pos_nth _ _ _ El) (pos_nth _ _ _ El))
+    as [HR' Eo].
+  cbn [ch_poll tokio_impl abs_impl tokioZ_impl absZ_impl] in *. unfold t_poll, a_pollw.
+  pose proof (stream_poll_epoch 3 c (r_pos r)) as E1.
+  destruct (t_stream_poll 3 c (r_pos r)) as [[c1 p1] o1]. cbn [fst snd] in *.
+  assert (E2 : a_epoch (fst (fst (a_poll a (r_pos r)))) = a_epoch a).
+  { unfold a_poll. destruct (r_pos r <? a_n a); reflexivity. }
+  destruct (a_poll a (r_pos r)) as [[a1 k1] o2]. cbn [fst snd] in *. subst o2.
+  assert (Ek : p1 = k1).
+  { destruct HR' as (El' & _). apply (upd_inj_same _ _ _ _ _ _ _ (pos_nth _ _ _ El)) in El'. congruence. }
+  subst k1. split; [|reflexivity].
+  split; [now rewrite E1, E2, Ee|]. split; [congruence|]. rewrite !pos_upd. exact HR'.
+Qed.
+
+Lemma Rtw_drop h c l a m s r q : Rtw h c l a m ->
+  nth_error l s = Some (Some r) -> nth_error m s = Some (Some q) ->
+  Rtw h (fst (ch_droprx tokio_impl c r)) (upd l s None) (fst (ch_droprx abs_impl a q)) (upd m s None) /\
+  snd (ch_droprx tokio_impl c r) = snd (ch_droprx abs_impl a q).
+Proof.
+  intros (-> & Ee & HR) El Em. rewrite El in Em. injection Em as <-.
+  destruct (Rt_drop h c (pos m) a (pos m) s (r_pos r) (r_pos r) HR (pos_nth _ _ _ El) (pos_nth _ _ _ El))
+    as [HR' Eo].
+  cbn [ch_droprx tokio_impl abs_impl tokioZ_impl absZ_impl] in *.
+  split; [|exact Eo]. split; [reflexivity|]. split; [|rewrite !pos_upd; exact HR'].
+  rewrite droprx_epoch. unfold a_droprx. cbn. exact Ee.
+Qed.
+
+Lemma Rtw_clone h c l a m : Rtw (S h) c l a m ->
+  Rtw (S (S h)) (ch_clone tokio_impl c) l (ch_clone abs_impl a) m.
+Proof.
+  intros (-> & Ee & HR). split; [reflexivity|]. split; [exact Ee|]. now apply Rt_clone.
+Qed.
+
+Lemma Rtw_droptx h c l a m : Rtw (S h) c l a m ->
+  Rtw h (ch_droptx tokio_impl c) l (ch_droptx abs_impl a) m.
+Proof.
+  intros (-> & Ee & HR). split; [reflexivity|]. split; [|now apply Rt_droptx].
+  destruct HR as (_ & [Ha Ht] & _). cbn. rewrite Ha, Ht, Ee. reflexivity.
+Qed.
+
+Definition tokio_sim := sim tokio_impl abs_impl Rtw Rot.
+
+Lemma tokio_parked st st' : tokio_sim st st' -> forall s, parked_in tokio_impl st s = parked_in abs_impl st' s.
+Proof.
+  intros (_ & _ & (El & Ee & _) & _) s. unfold parked_in. rewrite El.
+  cbn [rx tokio_impl abs_impl rx_waiting] in *. rewrite Ee. reflexivity.
+Qed.
+
+Section TokioWake.
+Let S0 := Rtw_shape.
+Let S1 := Rtw_init.
+Let S2 := fun h c l d m v H => Rtw_set h c l d m v H.
+Let S3 := fun h c l d m H => Rtw_sub h c l d m H.
+Let S4 := fun h c l d m s r q H A B => Rtw_poll h c l d m s r q H A B.
+Let S5 := fun h c l d m s r q H A B => Rtw_drop h c l d m s r q H A B.
+Let S6 := fun h c l d m H => Rtw_clone h c l d m H.
+Let S7 := fun h c l d m H => Rtw_droptx h c l d m H.
+Let S8 := Rot_init.
+Let S9 := fun a b v H => Rot_notify a b v H.
+Let S10 := fun a b H => Rot_drop a b H.
+Let S11 := fun nf a b H => Rot_poll nf a b H.
+
+Theorem tokio_refines_abs ops : run tokio_impl ops = run abs_impl ops.
+Proof. exact (sim_run tokio_impl abs_impl Rtw Rot S0 S1 S2 S3 S4 S5 S6 S7 S8 S9 S10 S11 ops). Qed.
+
+Theorem tokio_wakes_abs ops : wakes tokio_impl ops = wakes abs_impl ops.
+Proof.
+  exact (sim_wakes tokio_impl abs_impl Rtw Rot S0 S1 S2 S3 S4 S5 S6 S7 S8 S9 S10 S11 tokio_parked ops).
+Qed.
+
+Theorem tokio_parked_abs ops s : parked tokio_impl ops s = parked abs_impl ops s.
+Proof.
+  exact (sim_parked tokio_impl abs_impl Rtw Rot S0 S1 S2 S3 S4 S5 S6 S7 S8 S9 S10 S11 tokio_parked ops s).
+Qed.
+
+Theorem tokio_woken_abs ops o : woken tokio_impl ops o = woken abs_impl ops o.
+Proof.
+  exact (sim_woken tokio_impl abs_impl Rtw Rot S0 S1 S2 S3 S4 S5 S6 S7 S8 S9 S10 S11 tokio_parked ops o).
+Qed.
+End TokioWake.
